@@ -229,3 +229,140 @@ def run_family_member(src, cases):
             bad = {"calldata": cd.hex(), "expected": [hex(x) if x is not None else None for x in exp], "got": [hex(x) for x in got]}
             break
     return obs.samples, obs.errors, bad
+
+
+# ---------------------------------------------------------------------------------------------------------------
+PLAIN_CONTRACTS = ["""
+@internal
+def f(x: uint256) -> uint256:
+    return x + 1
+
+@external
+def g(x: uint256) -> uint256:
+    return self.f(x) * 2
+""", """
+@external
+def h(a: Bytes[64]) -> Bytes[64]:
+    return slice(a, 0, 32)
+"""]
+
+
+def collect(ctx, rnd, stats):
+    """returns (samples, evm mismatches)"""
+    samples, mism = [], []
+    n = 40 if ctx.tier == "quick" else 400
+    for name, src, cases in family(rnd, n):
+        stats["family_programs"] += 1
+        try:
+            ss, ee, bad = run_family_member(src, cases)
+        except Exception as e:  # noqa
+            stats["family_rejected_by_pipeline"] += 1
+            stats.setdefault("first_pipeline_error", repr(e)[:300])
+            continue
+        stats["evm_executions"] += len(cases)
+        stats["export_errors"] += len(ee)
+        if ee:
+            stats["family_export_errors"] = stats.get("family_export_errors", 0) + len(ee)
+            stats.setdefault("first_export_error", ee[0])
+        for s_ in ss:
+            s_["prog"], s_["src"] = name, src
+        samples += ss
+        if bad is not None:
+            mism.append(dict(bad, venom=src, prog=name))
+    with Observer() as obs:
+        for name, src in c14_fmp.unit_test_programs():
+            k = len(obs.samples)
+            try:
+                c14_fmp.lower(src)
+            except Exception:  # noqa  (snippets that are meant to be rejected, or need another pipeline)
+                pass
+            for s_ in obs.samples[k:]:
+                s_["prog"], s_["src"] = name, src
+        try:
+            import vyper
+            from vyper.compiler.settings import OptimizationLevel, Settings
+            k = len(obs.samples)
+            for src in PLAIN_CONTRACTS:
+                vyper.compile_code(src, output_formats=["bytecode_runtime"], settings=Settings(experimental_codegen=True, optimize=OptimizationLevel.GAS))
+            for s_ in obs.samples[k:]:
+                s_["prog"], s_["src"] = "contract", None
+            stats["contract_functions"] = len(obs.samples) - k
+        except Exception as e:  # noqa
+            stats["contract_error"] = repr(e)[:200]
+    stats["export_errors"] += len(obs.errors)
+    if obs.errors:
+        stats.setdefault("first_export_error", obs.errors[0])
+    samples += obs.samples
+    return samples, mism
+
+
+def part_dret(ctx, deps=None):
+    b = build(ctx, deps)
+    rnd = random.Random(ctx.seed * 7919 + 11)
+    stats = {"family_programs": 0, "family_rejected_by_pipeline": 0, "evm_executions": 0, "export_errors": 0, "invocations": 0,
+             "with_dret": 0, "drets": 0, "identity_ok": 0, "accepted": 0, "rejected": 0, "evm_mismatches": 0}
+    try:
+        samples, mism = collect(ctx, rnd, stats)
+    except Exception as e:  # noqa
+        ctx.violation("correspondence-broken", "DretDesugarPass could not be observed", {"error": repr(e)[:800]})
+        ctx.corr["dret"] = stats
+        return 0
+    stats["invocations"] = len(samples)
+    stats["evm_mismatches"] = len(mism)
+    if stats["family_programs"] and stats["family_rejected_by_pipeline"] * 4 > stats["family_programs"]:
+        ctx.violation("correspondence-broken", "most dret family programs no longer go through the lowering pipeline", dict(stats))
+    if stats.get("family_export_errors"):
+        ctx.violation("correspondence-broken", "DretDesugarPass input/output could not be exported: " + str(stats.get("first_export_error")),
+                      dict(stats))
+    found = False
+    for m in mism[:2]:
+        found = True
+        ctx.violation("failing-input", "a function returning dynamic buffers with `dret` hands the caller wrong data / a wrong FMP after "
+                      "DretDesugarPass + lowering (expected: the values pack_correct predicts)", m, key="dret:" + m["prog"])
+    # functions without dret: the pass must be the identity (compared here; a few also through the Coq checker)
+    todo, seen, ident_sent = [], set(), 0
+    for s_ in samples:
+        if s_["drets"] == 0:
+            if s_["before"] == s_["after"]:
+                stats["identity_ok"] += 1
+                if ident_sent >= 5:
+                    continue
+                ident_sent += 1
+        else:
+            stats["with_dret"] += 1
+            stats["drets"] += s_["drets"]
+        key = (s_["before"], s_["after"])
+        if key in seen:
+            continue
+        seen.add(key)
+        todo.append(s_)
+    res = None
+    if b["ok"] and todo:
+        try:
+            res = evaluate(todo, shard=max(1, len(todo) // 12), timeout=900)
+        except RuntimeError as e:
+            ctx.violation("correspondence-broken", "the dret validator could not be evaluated", {"error": str(e)[-1500:]})
+    for k, s_ in enumerate(todo):
+        if res is None:
+            break
+        if res[k] == [1]:
+            stats["accepted"] += 1
+            continue
+        stats["rejected"] += 1
+        if stats["rejected"] <= 2 and not found:
+            ctx.violation("theorem-broken", "dret_desugar_sound does not apply: the output of DretDesugarPass is not the verified "
+                          "desugaring of its input (dret_check = false; function " + s_["name"] + " of " + str(s_.get("prog")) + ")",
+                          {"theorem": "dret_desugar_sound", "function_before": s_["text_before"][:4000],
+                           "function_after": s_["text_after"][:6000], "venom": s_.get("src")})
+    if not b["ok"] and not found:
+        ctx.violation("theorem-broken", f"{b.get('failed_lemma')} in {b['file']}",
+                      {"theorem": b.get("failed_lemma"), "file": b["file"], "coq_output": b["out"][-1500:]})
+    if stats["with_dret"] == 0:
+        ctx.violation("correspondence-broken", "no function with a dret was observed", dict(stats))
+    ctx.corr["dret"] = stats
+    ctx.log("dret " + " ".join(f"{k}={v}" for k, v in stats.items()))
+    ctx.trusted.append("coq/C14R/Dret.v: `dret` = in-order pack at the function-entry FMP (the semantics the repo's README / "
+                       "test_dret_bad_return_order_can_clobber_later_source define it against), tied to the compiled code by EVM runs "
+                       "of the family; mcopy = memmove on a byte map; only the cancun+ copy form (mcopy) is modelled")
+    ctx.samples.append({"dret_functions": stats["with_dret"], "evm_executions": stats["evm_executions"]})
+    return stats["accepted"] + stats["evm_executions"]
